@@ -122,7 +122,7 @@ func checkC07(c *Ctx) {
 		}
 		c7Pure(c, fn, mut, exemptMut)
 	}
-	c.Rule("R7.7", "logging through an encoder never modifies it: EncodeEntry/Clone/writeContext only read the shared receiver", 6)
+	c.Rule("R7.7", "logging through an encoder never modifies it: EncodeEntry/Clone/writeContext only read the shared receiver", 3)
 	c9EncoderPurity(c, "R7.7")
 	c.Rule("R7.8", "namespaces nest per object: AppendObject saves, zeroes, closes and restores the open-namespace counter, so a nested object never closes the logger's own namespace", 5)
 	c1Namespace(c, "R7.8")
@@ -250,7 +250,9 @@ func c7Clone(c *Ctx) {
 	}
 }
 
-func isFreshBufferDesc(d string) bool { return d == "(Get)()" || d == "Get()" || strings.HasPrefix(d, "Get(") }
+func isFreshBufferDesc(d string) bool {
+	return d == "(Get)()" || d == "Get()" || strings.HasPrefix(d, "Get(")
+}
 
 func c7Wrappers(c *Ctx) {
 	for _, w := range []struct{ name, coreField string }{{"hooked", "Core"}, {"levelFilterCore", "core"}, {"sampler", "Core"}} {
